@@ -114,7 +114,7 @@ impl Sim {
 			path_nodes: nodes,
 			path_chans: chans.to_vec(),
 			amt_msat,
-			cltv_expiry: self.chain.height() + 1 + final_cltv_delta,
+			cltv_expiry: self.height_of(from) + 1 + final_cltv_delta,
 			hash,
 			preimage,
 			secret,
@@ -257,13 +257,15 @@ impl Sim {
 /// When broadcast transactions confirm. All delays are in blocks and stay within MAX_BLOCKS_FOR_CONF.
 #[derive(Clone, Debug)]
 pub struct ConfPlan {
-	/// a transaction spending a funding output first broadcast at chain height s is mined in block s + d_commit
+	/// a transaction spending a funding output whose first version was broadcast at chain height s is mined in
+	/// block s + d_commit (d_commit >= 1)
 	pub d_commit: u32,
-	/// a spend of the tracked HTLC output is mined d_htlc blocks after it became minable (its parent confirmed
-	/// and it was broadcast); 0 = same block as the parent if already known
+	/// the tracked HTLC output is resolved in block m + d_htlc, where m is the first chain height at which a
+	/// spend of it was both broadcast and had a confirmed parent; 0 = in the same block as the commitment when
+	/// a spend is already known by then
 	pub d_htlc: u32,
-	/// whose spend of the tracked HTLC output is mined when several compete (None: first come)
-	pub htlc_winner: Option<usize>,
+	/// whose spend of the tracked HTLC output is mined if several compete at that moment (else: whichever exists)
+	pub prefer: Option<usize>,
 	/// sat value of the tracked HTLC's output
 	pub htlc_sat: u64,
 }
@@ -349,57 +351,65 @@ pub fn next_block_txs(sim: &Sim, plan: &ConfPlan, hash: &PaymentHash) -> Vec<Tra
 	let view = chain_view(sim, plan.htlc_sat, hash);
 	let next_h = sim.chain.height() + 1;
 	let funding: Vec<OutPoint> = (0..sim.chans.len()).map(|c| sim.funding_outpoint(c)).collect();
-	let tracked: BTreeSet<OutPoint> = view.htlc_outpoint.values().cloned().collect();
+	let is_htlc_out = |o: &bitcoin::TxOut| o.value.to_sat() == plan.htlc_sat && o.script_pubkey.is_p2wsh();
 	let mut out: Vec<Transaction> = vec![];
 	let mut included: BTreeSet<Txid> = BTreeSet::new();
-	// unconfirmed commitments in the mempool whose HTLC output must be treated as tracked as well
+	// 1. funding spends (commitments) that are due; their tracked HTLC output becomes spendable in this block
+	let mut fresh_tracked: BTreeSet<OutPoint> = BTreeSet::new();
 	let mut pending_tracked: BTreeSet<OutPoint> = BTreeSet::new();
 	for tx in sim.chain.mempool.iter() {
-		if tx.input.iter().any(|i| funding.contains(&i.previous_output)) {
-			if let Some(vout) = tx.output.iter().position(|o| o.value.to_sat() == plan.htlc_sat && o.script_pubkey.is_p2wsh()) {
-				pending_tracked.insert(OutPoint { txid: tx.compute_txid(), vout: vout as u32 });
+		let txid = tx.compute_txid();
+		if let Some(ci) = funding.iter().position(|fo| tx.input.iter().any(|i| i.previous_output == *fo)) {
+			let tracked_out = tx.output.iter().position(|o| is_htlc_out(o)).map(|v| OutPoint { txid, vout: v as u32 });
+			let first = view.commit_broadcast.get(&ci).and_then(|v| v.iter().map(|x| x.1).min()).unwrap_or(0);
+			if next_h >= first + plan.d_commit && !out.iter().any(|t: &Transaction| t.input.iter().any(|i| funding[ci] == i.previous_output)) {
+				out.push(tx.clone());
+				included.insert(txid);
+				if let Some(op) = tracked_out {
+					fresh_tracked.insert(op);
+				}
+			} else if let Some(op) = tracked_out {
+				pending_tracked.insert(op);
 			}
 		}
 	}
+	// 2. spends of the tracked HTLC output
+	let tracked: BTreeSet<OutPoint> = view.htlc_outpoint.values().cloned().collect();
+	let spends = |set: &BTreeSet<OutPoint>| -> Vec<(Option<usize>, Transaction)> {
+		sim.chain.mempool.iter().filter(|tx| tx.input.iter().any(|i| set.contains(&i.previous_output))).map(|tx| (view.first_seen.get(&tx.compute_txid()).map(|x| x.0), tx.clone())).collect()
+	};
+	let mut chosen: Option<Transaction> = None;
+	if !tracked.is_empty() {
+		let cands = spends(&tracked);
+		if !cands.is_empty() {
+			// first chain height at which a spend was known with a confirmed parent
+			let m = view.htlc_outpoint.iter().map(|(ci, _)| {
+				let conf_h = view.commit_confirmed[ci].1;
+				let seen = view.htlc_spend_seen.iter().filter(|((c2, _), _)| c2 == ci).map(|(_, s)| *s).min().unwrap_or(conf_h);
+				conf_h.max(seen)
+			}).min().unwrap();
+			if next_h >= m + plan.d_htlc.max(1) {
+				// newest version of the preferred node's spend, else the newest of anybody's
+				chosen = cands.iter().rev().find(|(w, _)| plan.prefer.is_some() && *w == plan.prefer).or(cands.last()).map(|x| x.1.clone());
+			}
+		}
+	} else if plan.d_htlc == 0 && !fresh_tracked.is_empty() {
+		let cands = spends(&fresh_tracked);
+		chosen = cands.iter().rev().find(|(w, _)| plan.prefer.is_some() && *w == plan.prefer).or(cands.last()).map(|x| x.1.clone());
+	}
+	if let Some(tx) = chosen {
+		included.insert(tx.compute_txid());
+		out.push(tx);
+	}
+	// 3. everything else, parents first (mempool order is arrival order)
 	for tx in sim.chain.mempool.iter() {
 		let txid = tx.compute_txid();
-		let who = view.first_seen.get(&txid).map(|x| x.0);
-		if let Some(ci) = funding.iter().position(|fo| tx.input.iter().any(|i| i.previous_output == *fo)) {
-			let first = view.commit_broadcast.get(&ci).and_then(|v| v.iter().map(|x| x.1).min()).unwrap_or(0);
-			if next_h >= first + plan.d_commit {
-				out.push(tx.clone());
-				included.insert(txid);
-			}
+		if included.contains(&txid) || tx.input.iter().any(|i| funding.contains(&i.previous_output) || tracked.contains(&i.previous_output) || fresh_tracked.contains(&i.previous_output) || pending_tracked.contains(&i.previous_output)) {
 			continue;
 		}
-		let winner_ok = plan.htlc_winner.is_none() || plan.htlc_winner == who;
-		if tx.input.iter().any(|i| pending_tracked.contains(&i.previous_output)) {
-			// spends the tracked HTLC output of a commitment that is not confirmed yet: only in the same block
-			// as its parent, and only if the plan says "no delay"
-			if plan.d_htlc == 0 && winner_ok && tx.input.iter().all(|i| !pending_tracked.contains(&i.previous_output) || included.contains(&i.previous_output.txid)) {
-				out.push(tx.clone());
-				included.insert(txid);
-			}
-			continue;
-		}
-		if let Some(op) = tx.input.iter().map(|i| i.previous_output).find(|op| tracked.contains(op)) {
-			let ci = *view.htlc_outpoint.iter().find(|(_, o)| **o == op).unwrap().0;
-			if !winner_ok {
-				continue;
-			}
-			let conf_h = view.commit_confirmed[&ci].1;
-			// chain height at which this node first broadcast a spend of that output (re-bumped versions share it)
-			let seen = who.and_then(|w| view.htlc_spend_seen.get(&(ci, w)).cloned()).unwrap_or(conf_h);
-			let target = (conf_h.max(seen) + plan.d_htlc).max(seen + 1).max(conf_h + 1);
-			if next_h >= target {
-				out.push(tx.clone());
-				included.insert(txid);
-			}
-			continue;
-		}
-		// children of unconfirmed parents only together with / after the parent
 		let parents_ok = tx.input.iter().all(|i| sim.chain.utxo.contains_key(&i.previous_output) || included.contains(&i.previous_output.txid));
-		if parents_ok {
+		let conflicts = out.iter().any(|t| t.input.iter().any(|i| tx.input.iter().any(|j| j.previous_output == i.previous_output)));
+		if parents_ok && !conflicts {
 			out.push(tx.clone());
 			included.insert(txid);
 		}
